@@ -1,5 +1,6 @@
 (* C07 — Price rules: floor, no post-launch increase, honest price query.
-   Part 1: the six vending minters (one model, three variant flags).  Every statement is
+   Part 1: the six vending minters (one model, three variant flags); Part 2 (further
+   down): the three open-edition minters and creation through the factories.  Every statement is
    for every variant, every sender, clock, attached funds and every answer of the factory
    (parameters in force at call time, `fp`) and of the whitelist (`wv`).  Times are block
    times in nanoseconds: 12 h = 43200 s = 43200 * 1000000000 ns, 1 h = 3600 * 1000000000 ns.
@@ -353,6 +354,219 @@ Example C07_ex_set_whitelist_and_create :
   create_price_ok ex_fp 50 0 = true /\ create_price_ok ex_fp 49 0 = false /\ create_price_ok ex_fp 50 1 = false.
 Proof. vm_compute. repeat split; reflexivity. Qed.
 
+(* =====================================================================================
+   Part 2 — the three open-edition minters (open-edition-minter, -wl-flex, -merkle-wl;
+   one model MinterOpen.ostep, two variant flags) and creation through the factories.
+   THERE IS NO DISCOUNT on the open-edition minters (no UpdateDiscountPrice /
+   RemoveDiscountPrice handlers, no discount field): the discount clauses of the property
+   are vacuous there and a public buyer is charged the public price itself
+   (C07_oe_public_buyer_pays_public_price), so D4 cannot occur.  D8 occurs in the same
+   shape (the open-edition factory's sudo goes through the same base-factory
+   update_params, which only accepts a native minimum; UpdateMintPrice keeps the denom).
+   Extra rules of the OE handler: no price update once the end time has been reached,
+   and a zero price is refused when there is no token cap.
+   ===================================================================================== *)
+From LP Require Import MinterOpen Factory MinterOpenProofs C07OeProofs.
+
+(* ---- creation: the price / denom clause, over the lead's full factory model (tied to
+   the real factories by C08's correspondence and here by boundary probes) ---- *)
+Theorem C07_oe_create_ok : forall self p now funds r ms,
+  factory_create FOpen self p now funds r = Ok ms ->
+  g_min_price p <= r_price r /\ r_price_denom r = g_min_denom p /\ (r_num_tokens r = None -> r_price r <> 0).
+Proof. exact factory_create_open_price. Qed.
+
+Theorem C07_vending_factory_create_ok : forall self p now funds r ms,
+  factory_create FVending self p now funds r = Ok ms ->
+  g_min_price p <= r_price r /\ r_price_denom r = g_min_denom p.
+Proof. exact factory_create_vending_price. Qed.
+
+(* ---- UpdateMintPrice: only the admin, only before the end time (if any), never below
+   the minimum in force, strictly lower once the stored start time has been reached,
+   never zero without a token cap; changes the price amount and nothing else ---- *)
+Theorem C07_oe_update_price_ok : forall vr s e fp wv p s' ms,
+  ostep vr s e fp wv (EUpdateMintPrice p) = Ok (s', ms) ->
+  e_sender e = o_admin s /\ e_funds e = [] /\
+  (forall en, o_end s = Some en -> e_now e < en) /\
+  ofp_min_price fp <= p /\
+  (o_start s <= e_now e -> p < o_price s) /\
+  (o_num_tokens s = None -> p <> 0) /\
+  s' = mkOS (o_admin s) (o_payment s) (o_num_tokens s) (o_pal s) (o_whitelist s) (o_start s) (o_end s)
+            p (o_denom s)
+            (o_mintable s) (o_token_index s) (o_total s) (o_airdrops s)
+            (o_public s) (o_wl s) (o_fs s) (o_ss s) (o_ts s) (o_fs_count s) (o_ss_count s) (o_ts_count s)
+            (o_minted s) (o_burned s) (o_trading s) /\
+  ms = [].
+Proof. exact o_update_price_ok. Qed.
+
+(* ---- SetWhitelist: only the admin, only before the start, only while the attached
+   whitelist (if any) is not active; the new whitelist is not active, its price is at
+   least the minimum in force, in the minimum's denom and in the minter's own denom (all
+   three variants); only the whitelist field changes ---- *)
+Theorem C07_oe_set_whitelist_ok : forall vr s e fp wv wok w newview s' ms,
+  ostep vr s e fp wv (ESetWhitelist wok w newview) = Ok (s', ms) ->
+  e_sender e = o_admin s /\ e_funds e = [] /\
+  e_now e < o_start s /\
+  (o_whitelist s <> None -> exists v, wv = Some v /\ wv_active v = false) /\
+  (exists nv, newview = Some nv /\ wv_active nv = false /\
+              ofp_min_price fp <= wv_price nv /\
+              wv_denom nv = ofp_min_denom fp /\
+              wv_denom nv = o_denom s) /\
+  s' = mkOS (o_admin s) (o_payment s) (o_num_tokens s) (o_pal s) (Some w) (o_start s) (o_end s)
+            (o_price s) (o_denom s)
+            (o_mintable s) (o_token_index s) (o_total s) (o_airdrops s)
+            (o_public s) (o_wl s) (o_fs s) (o_ss s) (o_ts s) (o_fs_count s) (o_ss_count s) (o_ts_count s)
+            (o_minted s) (o_burned s) (o_trading s) /\
+  ms = [].
+Proof. exact o_set_whitelist_ok. Qed.
+
+(* ---- every other operation leaves price, denom and start time alone; only
+   UpdateStartTime moves the start; the denom never changes ---- *)
+Theorem C07_oe_frame : forall vr s e fp wv o s' ms,
+  ostep vr s e fp wv o = Ok (s', ms) ->
+  o_denom s' = o_denom s /\ o_admin s' = o_admin s /\
+  match o with
+  | EUpdateMintPrice p => o_price s' = p /\ o_start s' = o_start s
+  | EUpdateStartTime t => o_price s' = o_price s /\ o_start s' = t
+  | _ => o_price s' = o_price s /\ o_start s' = o_start s
+  end.
+Proof. exact ostep_frame. Qed.
+
+Theorem C07_oe_denom_never_changes : forall vr cs s, o_denom (orun vr s cs) = o_denom s.
+Proof. exact orun_denom. Qed.
+
+(* ---- once the stored start time has passed the public price only goes down (same sound
+   formulation as in part 1) ---- *)
+Theorem C07_oe_at_or_after_spelled_out : forall t cs,
+  o_at_or_after t cs <-> Forall (fun c => t <= e_now (oc_env c)) cs.
+Proof. intros t cs. unfold o_at_or_after. tauto. Qed.
+
+Theorem C07_oe_public_price_nonincreasing_after_start : forall vr s0 cs1 cs2 t,
+  o_start (orun vr s0 cs1) <= t -> o_at_or_after t cs2 ->
+  o_price (orun vr s0 (cs1 ++ cs2)) <= o_price (orun vr s0 cs1).
+Proof. exact o_public_price_nonincreasing. Qed.
+
+Theorem C07_oe_start_time_frozen_after_start : forall vr cs s t,
+  o_start s <= t -> o_at_or_after t cs ->
+  o_price (orun vr s cs) <= o_price s /\ o_start (orun vr s cs) = o_start s.
+Proof. exact o_price_nonincreasing_after_start. Qed.
+
+(* ---- the price query is the charge: MintPrice.current_price is the function the mint
+   uses and public_price is Config.mint_price; a Mint that succeeds attached exactly the
+   quoted coin; any other attached funds fail; the whitelist's price is quoted (as current
+   and as whitelist_price) and charged while the attached whitelist is active; otherwise
+   the public price is quoted and charged ---- *)
+Theorem C07_oe_query_is_charge : forall s fp wv v,
+  oq_mint_price s fp wv = Ok v ->
+  o_mint_price s fp wv false = Ok (opv_current v) /\ opv_public v = (o_price s, o_denom s).
+Proof. exact oq_current_is_mint_price. Qed.
+
+Theorem C07_oe_mint_pays_exactly_the_quote : forall vr s e fp wv stage proof alloc s' ms,
+  ostep vr s e fp wv (EMint stage proof alloc) = Ok (s', ms) ->
+  exists p d, o_mint_price s fp wv false = Ok (p, d) /\ may_pay (e_funds e) d = Ok p.
+Proof. exact o_mint_pays_quote. Qed.
+
+Theorem C07_oe_mint_with_other_payment_fails : forall vr s e fp wv stage proof alloc p d,
+  o_mint_price s fp wv false = Ok (p, d) -> may_pay (e_funds e) d <> Ok p ->
+  ostep vr s e fp wv (EMint stage proof alloc) = Err.
+Proof. exact o_mint_other_payment_fails. Qed.
+
+Theorem C07_oe_quote_when_whitelist_active : forall s fp w v,
+  o_whitelist s = Some w -> wv_active v = true ->
+  o_mint_price s fp (Some v) false = Ok (wv_price v, wv_denom v) /\
+  exists pv, oq_mint_price s fp (Some v) = Ok pv /\ opv_current pv = (wv_price v, wv_denom v) /\
+             opv_whitelist pv = Some (wv_price v, wv_denom v).
+Proof. exact o_whitelist_quote. Qed.
+
+Theorem C07_oe_quote_when_public : forall s fp wv,
+  (o_whitelist s = None \/ exists v, wv = Some v /\ wv_active v = false) ->
+  o_mint_price s fp wv false = Ok (o_price s, o_denom s).
+Proof. exact o_public_quote. Qed.
+
+(* charged <= public holds WITHOUT exception here: the public buyer pays the public price *)
+Theorem C07_oe_public_buyer_pays_public_price : forall vr s e fp wv stage proof alloc s' ms,
+  (o_whitelist s = None \/ exists v, wv = Some v /\ wv_active v = false) ->
+  ostep vr s e fp wv (EMint stage proof alloc) = Ok (s', ms) ->
+  may_pay (e_funds e) (o_denom s) = Ok (o_price s).
+Proof. exact o_public_mint_pays_public_price. Qed.
+
+(* ---- D8 on the open-edition minters: same recorded finding
+   (C07:non-native-min-price-governance).  Witness: created at 100 ibc/x (id 1); minimum
+   becomes 70 ustars (id 0); UpdateMintPrice 90 succeeds: 90 ibc/x under 70 ustars. ---- *)
+Definition oe_fp : ofparams := mkOFP 50 0 1000 40 0 5000 10 12 604800 (Some 15).
+Definition oe_fp_gov : ofparams := mkOFP 70 0 1000 40 0 5000 10 12 604800 (Some 15).
+Definition oe_s0 : ostate :=
+  mkOS 10 None (Some 5) 3 None 1000 (Some 90000) 100 0 (Some 5) 0 0 0 [] [] [] [] [] 0 0 0 [] 0 None.
+Definition oe_s0_ibc : ostate :=
+  mkOS 10 None (Some 5) 3 None 1000 (Some 90000) 100 1 (Some 5) 0 0 0 [] [] [] [] [] 0 0 0 [] 0 None.
+Definition oe_plain : ovariant := mkOV false false.
+
+Theorem C07_oe_denom_refuted :
+  exists vr s0 cs e fp wv p s' ms,
+    o_denom s0 = 1 /\                      (* created in ibc/x, the factory's minimum denom then *)
+    ostep vr (orun vr s0 cs) e fp wv (EUpdateMintPrice p) = Ok (s', ms) /\
+    ofp_min_price fp <= o_price s' /\
+    o_denom s' <> ofp_min_denom fp.
+Proof.
+  exists oe_plain, oe_s0_ibc, [], (mkEnv 500 10 [] 20), oe_fp_gov, None, 90.
+  eexists. eexists.
+  split; [ reflexivity | ]. split; [ vm_compute; reflexivity | ]. split; [ vm_compute; discriminate | ].
+  vm_compute. discriminate.
+Qed.
+
+Theorem C07_oe_update_price_denom_if_factory_denom_unchanged : forall vr d0 s0 cs e fp wv p s' ms,
+  o_denom s0 = d0 ->
+  ofp_min_denom fp = d0 ->
+  ostep vr (orun vr s0 cs) e fp wv (EUpdateMintPrice p) = Ok (s', ms) ->
+  o_price s' = p /\ o_denom s' = ofp_min_denom fp.
+Proof. exact o_update_price_denom. Qed.
+
+(* ---- non-vacuity: start 1000, end 90000, minimum 50.
+     t=999    raise 100 -> 120 before the start                 accepted
+     t=1000   121 / 120 at the start instant                    refused
+     t=1000   119                                               accepted
+     t=1001   49 (below the minimum)                            refused
+     t=1001   50                                                accepted
+     t=1002   public Mint paying 51 / 49                        refused
+     t=1002   public Mint paying 50                             accepted
+     t=90000  40 -> at the end time                             refused (ended; also < min) ---- *)
+Definition oadm (t : N) (o : eop) : ocall := mkOCall (mkEnv t 10 [] 20) oe_fp None o.
+Definition oe_calls : list ocall :=
+  [ oadm 999 (EUpdateMintPrice 120);
+    oadm 1000 (EUpdateMintPrice 121);
+    oadm 1000 (EUpdateMintPrice 120);
+    oadm 1000 (EUpdateMintPrice 119);
+    oadm 1001 (EUpdateMintPrice 49);
+    oadm 1001 (EUpdateMintPrice 50);
+    mkOCall (mkEnv 1002 11 [mkCoin 0 51] 20) oe_fp None (EMint None false None);
+    mkOCall (mkEnv 1002 11 [mkCoin 0 49] 20) oe_fp None (EMint None false None);
+    mkOCall (mkEnv 1002 11 [mkCoin 0 50] 20) oe_fp None (EMint None false None);
+    oadm 90000 (EUpdateMintPrice 55) ].
+
+Example C07_oe_ex_history_evaluates :
+  let s := orun oe_plain oe_s0 oe_calls in
+  (o_price s, o_denom s, o_total s, o_start s) = (50, 0, 1, 1000) /\
+  map (fun k => o_price (orun oe_plain oe_s0 (firstn k oe_calls))) [1; 2; 3; 4; 5; 6]%nat = [120; 120; 120; 119; 119; 50] /\
+  o_mint_price s oe_fp None false = Ok (50, 0).
+Proof. vm_compute. repeat split; reflexivity. Qed.
+
+Example C07_oe_ex_zero_price_needs_a_cap :
+  let fp0 := mkOFP 0 0 1000 40 0 5000 10 12 604800 (Some 15) in
+  let s_nocap := mkOS 10 None None 3 None 1000 (Some 90000) 100 0 (Some 12) 0 0 0 [] [] [] [] [] 0 0 0 [] 0 None in
+  is_ok (ostep oe_plain s_nocap (mkEnv 500 10 [] 20) fp0 None (EUpdateMintPrice 0)) = false /\
+  is_ok (ostep oe_plain s_nocap (mkEnv 500 10 [] 20) fp0 None (EUpdateMintPrice 1)) = true /\
+  is_ok (ostep oe_plain oe_s0 (mkEnv 500 10 [] 20) fp0 None (EUpdateMintPrice 0)) = true.
+Proof. vm_compute. repeat split; reflexivity. Qed.
+
+Example C07_oe_ex_set_whitelist :
+  is_ok (ostep oe_plain oe_s0 (mkEnv 500 10 [] 20) oe_fp None
+           (ESetWhitelist true 30 (Some (mkWV false 50 0 2 100 2 (Some false) None false None None None)))) = true /\
+  is_ok (ostep oe_plain oe_s0 (mkEnv 500 10 [] 20) oe_fp None
+           (ESetWhitelist true 30 (Some (mkWV false 49 0 2 100 2 (Some false) None false None None None)))) = false /\
+  is_ok (ostep oe_plain oe_s0 (mkEnv 500 10 [] 20) oe_fp None
+           (ESetWhitelist true 30 (Some (mkWV false 50 1 2 100 2 (Some false) None false None None None)))) = false.
+Proof. vm_compute. repeat split; reflexivity. Qed.
+
+
 Print Assumptions C07_create_ok.
 Print Assumptions C07_update_price_ok.
 Print Assumptions C07_update_discount_ok.
@@ -375,3 +589,19 @@ Print Assumptions C07_charged_le_public_outside_known.
 Print Assumptions C07_denom_refuted.
 Print Assumptions C07_update_price_denom_if_factory_denom_unchanged.
 Print Assumptions C07_update_discount_denom_if_factory_denom_unchanged.
+Print Assumptions C07_oe_create_ok.
+Print Assumptions C07_vending_factory_create_ok.
+Print Assumptions C07_oe_update_price_ok.
+Print Assumptions C07_oe_set_whitelist_ok.
+Print Assumptions C07_oe_frame.
+Print Assumptions C07_oe_denom_never_changes.
+Print Assumptions C07_oe_public_price_nonincreasing_after_start.
+Print Assumptions C07_oe_start_time_frozen_after_start.
+Print Assumptions C07_oe_query_is_charge.
+Print Assumptions C07_oe_mint_pays_exactly_the_quote.
+Print Assumptions C07_oe_mint_with_other_payment_fails.
+Print Assumptions C07_oe_quote_when_whitelist_active.
+Print Assumptions C07_oe_quote_when_public.
+Print Assumptions C07_oe_public_buyer_pays_public_price.
+Print Assumptions C07_oe_denom_refuted.
+Print Assumptions C07_oe_update_price_denom_if_factory_denom_unchanged.
